@@ -168,4 +168,30 @@ theorem asm_normalise (a : Arch) (i : Instr) : asm a (normalise i) = asm a i := 
   rw [normalise_idem]
   rfl
 
+
+theorem mapM_ok {α β ε : Type} (f : α → Except ε β) :
+    ∀ (l : List α) (ws : List β), l.mapM f = .ok ws →
+      ws.length = l.length ∧ ∀ p ∈ l.zip ws, f p.1 = .ok p.2 := by
+  intro l
+  induction l with
+  | nil => intro ws h; simp [pure, Except.pure] at h; subst h; simp
+  | cons x xs ih =>
+    intro ws h
+    rw [List.mapM_cons] at h
+    cases hx : f x with
+    | error e => simp [hx, bind, Except.bind] at h
+    | ok b =>
+      cases hxs : xs.mapM f with
+      | error e => simp [hx, hxs, bind, Except.bind] at h
+      | ok bs =>
+        simp [hx, hxs, bind, Except.bind, pure, Except.pure] at h
+        subst h
+        obtain ⟨hl, hall⟩ := ih bs hxs
+        refine ⟨by simp [hl], ?_⟩
+        intro p hp
+        simp only [List.zip_cons_cons, List.mem_cons] at hp
+        rcases hp with rfl | hp
+        · exact hx
+        · exact hall p hp
+
 end BMV.Encode
